@@ -25,7 +25,14 @@ pub fn set_mask(mask: u32) {
 
 use std::io::{self, BufRead, Write};
 
+extern "C" {
+    fn alarm(secs: u32) -> u32;
+}
+
 fn main() {
+    // per-case watchdog: a case that does not come back (a loop of the code under test that never terminates) gets
+    // SIGALRM (default action: the process dies with signal 14); the runner records it for that case and restarts
+    let watchdog: u32 = std::env::var("CFH_WATCHDOG").ok().and_then(|s| s.parse().ok()).unwrap_or(20);
     let args: Vec<String> = std::env::args().collect();
     let mode = args.get(1).map(|s| s.as_str()).unwrap_or("");
     let stdin = io::stdin();
@@ -35,6 +42,7 @@ fn main() {
         let line = line.unwrap();
         let toks: Vec<&str> = line.split_whitespace().collect();
         if toks.is_empty() { continue; }
+        unsafe { alarm(watchdog); }
         let res = match mode {
             "sym" => sym::run_case(&toks),
             "exp" => exp::run_exp(&toks),
@@ -43,6 +51,7 @@ fn main() {
             "dispatch" => exp::run_dispatch_line(&toks),
             _ => format!("error unknown-mode {}", mode),
         };
+        unsafe { alarm(0); }
         writeln!(out, "{}", res).unwrap();
         out.flush().unwrap();
     }
